@@ -18,6 +18,6 @@ UNITS = [Unit('backmp11.do_process_event_pool', ['C04', 'C05', 'C10', 'C20', 'C1
         dict(name='CONT-inc', pat='it ++ ;', rep='it = pit_inc ( it ) ;', min=1, max=1),
         dict(name='pool-member', pat='event_pool . cur_seq_cnt += 1 ;', rep='self -> event_pool . cur_seq_cnt += 1 ;', min=1, max=1),
         dict(name='CONT-end', pat='it != event_pool . events . end ( )', rep='pit_ne_end ( self , it )', min=1, max=1)]),
-    loops={0: '__CPROVER_assigns(it, processed_events, self->event_pool.cur_seq_cnt, g_len, g_epoch, g_dispatches, g_erased, g_marked_here)\n'
-              '__CPROVER_loop_invariant(it.epoch == g_epoch && it.pos < g_len && g_len < SIZE_CAP && processed_events <= g_dispatches && processed_events < max_events)'},
+    loops={0: '__CPROVER_assigns(it, processed_events, self->event_pool.cur_seq_cnt, g_len, g_epoch, g_dispatches, g_erased, g_marked_here, g_nondef)\n'
+              '__CPROVER_loop_invariant(it.epoch == g_epoch && it.pos < g_len && g_len < SIZE_CAP && processed_events <= g_dispatches && processed_events < max_events && processed_events == g_nondef)'},
     cbmc_flags=['--object-bits', '12'], replay=['queue', 'defer'])]
